@@ -156,6 +156,26 @@ class Snap(object):
         except Exception as e:
             return 'exception while comparing: %r' % (e,)
 
+    def semantic_diff(self, t=None):
+        """what property C06 states: dense value and shape metadata unchanged.  Returns (bitwise_reason, semantic_reason);
+        semantic_reason is None when only the gauge (core entries, not the represented tensor / metadata) changed."""
+        t = self.obj if t is None else t
+        d = self.diff(t)
+        if d is None:
+            return None, None
+        try:
+            ok, why = tt_consistent(t)
+            if not ok:
+                return d, 'object inconsistent: ' + why
+            if (t.order != self.order or list(t.row_dims) != self.row_dims or list(t.col_dims) != self.col_dims or list(t.ranks) != self.ranks):
+                return d, d
+            a, b = dense_b_cores(self.cores), dense_b_cores(t.cores)
+            if a.shape != b.shape or not close(a, b, 1e-10, scale=self.floor()):
+                return d, 'dense value changed (rel. %.3g); %s' % (relerr(a, b, self.floor()), d)
+            return d, None
+        except Exception as e:
+            return d, 'exception while comparing values: %r' % (e,)
+
     def dense(self):
         return dense_cores(self.cores)
 
